@@ -125,6 +125,10 @@ fn has_cycle(edges: &Edges, within: &BTreeSet<usize>) -> bool {
 
 impl C13 {
     pub fn check_slices(&mut self, s: &mut Session, ctx: &mut Ctx, exhaustive_starts: bool) -> Option<String> {
+        if !crate::rec::kids_match_stored_edges(s.g.as_ref()) {
+            ctx.c.inc("c13.kids()-disagrees-with-the-stored-edges(no reference for edges, skipped)");
+            return None;
+        }
         let keys: BTreeSet<usize> = s.g.keys().into_iter().collect();
         let mut edges: Edges = BTreeMap::new();
         for v in &keys {
